@@ -668,16 +668,28 @@ func main() {
 		}
 		serveCase("serve-"+modeNames[mode], cfg, q, t)
 	}
-	// directed: the two DESIGN findings and their neighbours
-	for i := 0; i < run.Scale(24, 200); i++ {
+	// directed: every Upgrade spelling with and without a forged X-Forwarded-For.  "websocket" and
+	// "Websocket" go to the websocket handler (addHeaders must append the peer: F-C08-2, repaired by
+	// afbb806); "WebSocket", "WEBSOCKET", ... go through httputil.ReverseProxy, which appends it.
+	for i := 0; i < run.Scale(40, 320); i++ {
 		cfg := genCfg(r)
+		sp := []string{"Websocket", "websocket", "WebSocket", "WEBSOCKET"}[(i/2)%4]
 		mode := []int{modeWS, modeWSS}[i%2]
+		if sp != "Websocket" && sp != "websocket" {
+			mode = []int{modePlain, modeTLS}[i%2] // stub transport behind ReverseProxy
+		}
 		q := genReq(r, &cfg, mode, 30)
-		q.Hdr.Set("Upgrade", []string{"Websocket", "websocket"}[(i/2)%2])
+		q.Hdr.Set("Upgrade", sp)
+		if q.Hdr.Get("Connection") == "" {
+			q.Hdr.Set("Connection", "Upgrade")
+		}
 		if i%3 == 0 {
 			q.Hdr.Del("X-Forwarded-For")
+		} else if q.Hdr.Get("X-Forwarded-For") == "" {
+			q.Hdr.Add("X-Forwarded-For", "6.6.6.6")
 		}
 		serveCase("serve-upgrade-spelling", cfg, q, genTarget(mode))
+		addCase("add-upgrade-spelling", cfg, q, "")
 	}
 	for i := 0; i < run.Scale(40, 300); i++ {
 		cfg := genCfg(r)
